@@ -88,7 +88,7 @@ def run(ctx):
         if m.behaviours == 0:
             raise MachineryFault("Ignore.tla (%s) emitted no behaviour" % tag)
         if cov:
-            dead = [a for a in m.coverage_zero if a in ("PostPass", "SubOpen", "SubSkip", "SubClose", "SwOpen", "SwClose", "Stmt", "Trail", "IfOpen", "Else", "Elif", "IfClose", "Place")]
+            dead = wlint.dead_actions(m.out_path, ("PostPass", "SubOpen", "SubSkip", "SubClose", "SwOpen", "SwClose", "Stmt", "Trail", "IfOpen", "Else", "Elif", "IfClose", "Place"))
             if dead:
                 raise MachineryFault("Ignore.tla actions never taken: %s" % dead)
         ctx.notes.setdefault("programs_by_run", {})[tag] = m.behaviours
